@@ -125,6 +125,20 @@ class InertConsumer(Consumer):
             self.counters['same'] += 1
 
 
+def replacement_spans(s, tname, scheme, encoded):
+    """[start, end) of the replacement text of every input character that has a table entry, in the encoder's output
+    (per-character rules: the output is the concatenation of the pieces; checked against the real output)"""
+    import unicodedata
+    tab = c04_extra.table(tname)
+    spans, p = [], 0
+    for ch in unicodedata.normalize('NFC', s):
+        piece = c04_extra.port_encode(ch, tab, scheme, 'keep', False)
+        if ord(ch) in tab:
+            spans.append([p, p + len(piece)])
+        p += len(piece)
+    return spans if p == len(encoded) else []
+
+
 def _probe_worker(args):
     """Real encoder + real strict parser on a batch of strings; returns traces for the TLC acceptors."""
     tname, scheme, policy, strings = args
@@ -149,7 +163,8 @@ def _probe_worker(args):
             otr['what'] = i.get('what')
             out.append((dict(case, encoded=val), 'outcome', otr))
             continue
-        out.append((dict(case, encoded=val), 'tree', dict(kind='inert', s=codes(val), ns=i['v']['ns'])))
+        out.append((dict(case, encoded=val), 'tree', dict(kind='inert', s=codes(val), ns=i['v']['ns'],
+                                                            spans=replacement_spans(s, tname, scheme, val))))
     return out
 
 
